@@ -77,6 +77,16 @@ func (s *vfSM) classifyRead(what string, key, v uint64, ok bool, now time.Time) 
 		if ti.exits > 0 && !s.replaying {
 			return vfV("C02", "served-after-exit", "%s(%d) returned %d after it was passed to OnExit", what, key, v)
 		}
+		// second sentence of C02, from observations alone: this value was read, then a value written later was read
+		// under the same key (the overwrite had taken effect), and now the older one is back. Values are numbered
+		// in the order of their Set calls.
+		if prev, has := s.lastRead[key]; has && v > prev {
+			s.toks[prev].superseded = true
+		}
+		s.lastRead[key] = v
+		if ti.superseded && !s.replaying {
+			return vfV("C02", "older-value-served", "%s(%d) returned %d again after a value written later had been read under that key", what, key, v)
+		}
 		if in && ent.tok == v {
 			if !servedM {
 				return vfV("C07", "served-after-expiry", "%s(%d) returned %d at %v although it expired at %v", what, key, v, now.Format("15:04:05.000000000"), ent.exp.Format("15:04:05.000000000"))
@@ -90,12 +100,18 @@ func (s *vfSM) classifyRead(what string, key, v uint64, ok bool, now time.Time) 
 			return s.alsoC06(vfV("C05", "hit-after-del-and-wait", "%s(%d) returned %d although Del(%d) completed, writes drained and no Set was issued since", what, key, v, key))
 		}
 		if ti.state == tGone {
-			return vfV("C02", "older-value-served", "%s(%d) returned %d which had been overwritten/removed before (model holds %v)", what, key, v, ent)
+			// the reference expected this value to have left (without an OnExit having been seen, or the first check
+			// above would have fired): the cache and the reference disagree about an earlier step, which is some other
+			// assertion's business; no property speaks about this read by itself
+			return vfV("MODEL", "read-of-value-the-reference-let-go", "%s(%d) returned %d which the reference had let go of (reference holds %v)", what, key, v, ent)
 		}
 		if s.tainted[key] {
 			return nil
 		}
 		return vfV("C06", "unexpected-value", "%s(%d) returned %d (state %d); the reference map holds %+v (present %v)", what, key, v, ti.state, ent, in)
+	}
+	if tok, has := s.nowhere[key]; has && !in && len(s.fifo) == 0 && s.fitsAlways() && !s.replaying {
+		return vfV("C06", "accepted-write-not-visible-after-wait", "%s(%d) missed with writes drained although Set(%d) returned true for value %d, the key was neither resident nor pending, and everything fits", what, key, key, tok)
 	}
 	if servedM && !boundary {
 		if s.tainted[key] {
@@ -113,10 +129,32 @@ func (s *vfSM) classifyRead(what string, key, v uint64, ok bool, now time.Time) 
 	return nil
 }
 
+// vfNeedsReference: assertions whose verdict compares the cache with what the reference map, its accounting or its
+// counters hold (as opposed to with the calls made and the callbacks and results observed). Once the reference had to
+// be re-aligned with the cache (alignFifo) its contents are the result of a step it did not predict, so these are no
+// longer evidence against a property; the others still are.
+var vfNeedsReference = map[string]bool{
+	"unexpected-value": true, "spurious-loss": true, "eviction-or-rejection-although-everything-fits": true,
+	"overwrite-not-applied-immediately": true, "unexpected-immediate-store": true, "hidden-before-expiry": true,
+	"iter-nonresident": true, "iter-missed-resident": true, "remaining-cost-vs-history": true, "over-capacity": true,
+	"expired-entry-not-reclaimed": true, "sets-dropped": true, "evicted-value-not-resident": true,
+	"no-onreject-for-turned-away-item": true, "sweep-reported-no-value": true,
+}
+
 func (s *vfSM) add(vs *[]*vfViol, v *vfViol) {
-	if v != nil {
-		*vs = append(*vs, v)
+	if v == nil {
+		return
 	}
+	if s.st.realigned > 0 && v.Owner != "MODEL" && v.Owner != "HARNESS" {
+		name := v.Sig[len(v.Owner)+1:]
+		if i := strings.Index(name, "/"); i >= 0 {
+			name = name[:i]
+		}
+		if vfNeedsReference[name] {
+			v = &vfViol{Owner: "MODEL", Sig: "MODEL/after-realignment:" + v.Sig, Msg: v.Msg}
+		}
+	}
+	*vs = append(*vs, v)
 }
 
 // checkView probes every key through the store (no side effects on metrics or frequencies).
@@ -170,6 +208,7 @@ func (s *vfSM) checkAccounting(vs *[]*vfViol) {
 	// internal cost unless ignored). Keys that only one side knows are a matter of *which* keys are resident (C13, C02,
 	// C04 ...), not of C03: the model then simply adopts the cache's view.
 	keysDiffer := len(pk) != len(s.acct)
+	mk := s.mapKeys()
 	for k, mc := range s.acct {
 		pc, ok := pk[k]
 		if !ok {
@@ -177,7 +216,15 @@ func (s *vfSM) checkAccounting(vs *[]*vfViol) {
 			continue
 		}
 		if pc != mc {
-			s.add(vs, vfV("C03", "remaining-cost-vs-history", "key %d is accounted with cost %d, the history of writes implies %d (RemainingCost()=%d, MaxCost %d)", k, pc, mc, rc, s.maxCost))
+			// only when cache and reference agree on which value is stored under the key: if they hold different values
+			// an earlier step went differently, and the two costs are not costs of the same thing
+			owner := "MODEL"
+			for rk, e := range s.resident {
+				if kh, _ := s.c.keyToHash(rk); kh == k && mk[k] == e.tok {
+					owner = "C03"
+				}
+			}
+			s.add(vs, vfV(owner, "remaining-cost-vs-history", "key %d is accounted with cost %d, the history of writes implies %d (RemainingCost()=%d, MaxCost %d)", k, pc, mc, rc, s.maxCost))
 		}
 	}
 	if keysDiffer {
@@ -252,6 +299,9 @@ func (s *vfSM) checkIter(vs *[]*vfViol, stopAfter int) {
 
 // checkDrained: assertions that hold whenever buffered writes have drained.
 func (s *vfSM) checkDrained(vs *[]*vfViol) {
+	if len(s.fifo) == 0 && len(s.c.setBuf) != 0 && !s.align(vs) {
+		return // items the reference does not know: not "drained", and not a statement about Wait either
+	}
 	if len(s.fifo) != 0 {
 		return
 	}
@@ -402,9 +452,26 @@ func (s *vfSM) modelSet(op *vfOp, ok bool, observedUpd bool, now time.Time, vs *
 	}
 	room := len(s.fifo) < s.fifoCap()
 	// (a write that ShouldUpdate refuses is neither a new-key Set nor an applied overwrite: no property states its return value)
+	delete(s.nowhere, op.Key)
 	if want := room || upd; ok != want && !refusedOverwrite {
-		s.add(vs, vfV("C06", "set-return", "Set(%d) returned %v; reference FIFO holds %d of %d, overwrite of resident key: %v", op.Key, ok, len(s.fifo), s.fifoCap(), upd))
-
+		// No property states what Set returns when the write buffer has room or is full (C17 counts the refusals, C06
+		// and C04 say what follows from "true"). If the cache's buffer does not hold what the reference FIFO holds, an
+		// earlier step went differently and the case cannot be followed any further. Otherwise the reference follows
+		// the answer: "true" without a place in the buffer is an accepted write that is nowhere - C06 (visible after
+		// Wait) and C04 (released by Close) will speak about it in their own time.
+		if s.bufBefore >= 0 && s.bufBefore != len(s.fifo) {
+			s.add(vs, vfV("MODEL", "write-buffer-differs-from-reference", "Set(%d) returned %v; reference FIFO holds %d of %d, the cache's buffer held %d before the call", op.Key, ok, len(s.fifo), s.fifoCap(), s.bufBefore))
+		} else if ok && !in && ttl == 0 {
+			pending := false
+			for _, p := range s.fifo {
+				if p.key == op.Key {
+					pending = true
+				}
+			}
+			if !pending {
+				s.nowhere[op.Key] = tok
+			}
+		}
 	}
 	s.deleted[op.Key] = false
 	delete(s.swept, op.Key)
@@ -426,7 +493,9 @@ func (s *vfSM) modelSet(op *vfOp, ok bool, observedUpd bool, now time.Time, vs *
 	if !ok {
 		if !upd {
 			ti.state = tDropped
-			s.mDropped++
+			if !room { // "refused because the write buffer was full"
+				s.mDropped++
+			}
 			s.st.drops++
 		}
 		return
@@ -438,6 +507,7 @@ func (s *vfSM) modelSet(op *vfOp, ok bool, observedUpd bool, now time.Time, vs *
 }
 
 func (s *vfSM) modelDel(op *vfOp) {
+	delete(s.nowhere, op.Key)
 	if ent, in := s.resident[op.Key]; in {
 		s.gone(ent.tok)
 		delete(s.resident, op.Key)
@@ -480,7 +550,7 @@ func (s *vfSM) applyPend(p vfPend, evs []vfCB, est map[uint64]int64, vs *[]*vfVi
 	}
 	unexpected := func() {
 		if len(rejects)+len(evicts) > 0 {
-			s.add(vs, vfV("C04", "unexpected-callback", "applying buffered item kind %d key %d produced OnReject x%d OnEvict x%d", p.kind, p.key, len(rejects), len(evicts)))
+			s.add(vs, vfV("MODEL", "unexpected-callback", "applying buffered item kind %d key %d produced OnReject x%d OnEvict x%d", p.kind, p.key, len(rejects), len(evicts)))
 		}
 	}
 	switch p.kind {
@@ -527,7 +597,7 @@ func (s *vfSM) applyPend(p vfPend, evs []vfCB, est map[uint64]int64, vs *[]*vfVi
 			if r.tok == p.tok {
 				rejected = true
 			} else {
-				s.add(vs, vfV("C04", "unexpected-callback", "applying the insert of value %d rejected value %d", p.tok, r.tok))
+				s.add(vs, vfV("MODEL", "unexpected-callback", "applying the insert of value %d rejected value %d", p.tok, r.tok))
 			}
 		}
 		// "remaining capacity" for C09 is MaxCost minus the costs of the resident keys (what C03 says RemainingCost() is)
@@ -621,7 +691,122 @@ func (s *vfSM) applyPend(p vfPend, evs []vfCB, est map[uint64]int64, vs *[]*vfVi
 	}
 }
 
+// alignFifo compares the cache's write buffer with the reference FIFO before an item is applied. On the unchanged
+// code they always hold the same sequence. When they do not, an earlier call went differently (a marker that was never
+// enqueued, a Set that was accepted but not buffered ...): entries only the reference holds are dropped from it, so
+// that the assertions that follow speak about the step the cache really takes; what was dropped is left to the
+// assertions that look at observations (C05 hit after Del and Wait, C06 accepted write not visible, C04 never
+// released). An item only the cache holds cannot be interpreted: the case ends as diverged.
+func (s *vfSM) alignFifo(vs *[]*vfViol) bool {
+	if s.closed {
+		return true
+	}
+	if s.blockedDel != nil {
+		// a sender is parked on the full buffer according to the reference: draining would let its item jump the
+		// queue, so only the fill level can be compared
+		if n := len(s.c.setBuf); n != cap(s.c.setBuf) {
+			s.add(vs, vfV("MODEL", "write-buffer-not-full-although-reference-has-a-parked-sender", "the cache's buffer holds %d of %d", n, cap(s.c.setBuf)))
+			return false
+		}
+		return true
+	}
+	items := s.drainBuf()
+	for _, it := range items {
+		s.c.setBuf <- it
+	}
+	match := func(p vfPend, it *Item[uint64]) bool {
+		switch {
+		case it.wait != nil:
+			return p.kind == pWait
+		case it.flag == itemDelete:
+			kh, _ := s.c.keyToHash(p.key)
+			return p.kind == pDel && kh == it.Key
+		case it.flag == itemNew:
+			return p.kind == pNew && p.tok == it.Value
+		case it.flag == itemUpdate:
+			return p.kind == pUpd && p.tok == it.Value
+		}
+		return false
+	}
+	same := len(items) == len(s.fifo)
+	for i := 0; same && i < len(items); i++ {
+		same = match(s.fifo[i], items[i])
+	}
+	if same {
+		return true
+	}
+	var out []vfPend
+	j := 0
+	for _, it := range items {
+		found := -1
+		for q := j; q < len(s.fifo); q++ {
+			if match(s.fifo[q], it) {
+				found = q
+				break
+			}
+		}
+		if found < 0 {
+			s.add(vs, vfV("MODEL", "write-buffer-holds-item-unknown-to-reference", "buffered item flag %d key %d value %d has no counterpart in the reference FIFO %v", it.flag, it.Key, it.Value, s.fifo))
+			return false
+		}
+		for _, d := range s.fifo[j:found] {
+			if !s.dropPend(d, vs) {
+				return false
+			}
+		}
+		out = append(out, s.fifo[found])
+		j = found + 1
+	}
+	for _, d := range s.fifo[j:] {
+		if !s.dropPend(d, vs) {
+			return false
+		}
+	}
+	s.fifo = out
+	s.st.realigned++
+	s.realigned = true
+	return true
+}
+
+// dropPend: the reference held an entry that the cache's write buffer does not hold.
+func (s *vfSM) dropPend(d vfPend, vs *[]*vfViol) bool {
+	switch d.kind {
+	case pWait:
+		s.add(vs, vfV("MODEL", "wait-marker-not-in-write-buffer", "the reference FIFO holds a Wait marker (goroutine %d) that the cache's buffer does not hold", d.wid))
+		return false
+	case pNew:
+		if ti := s.toks[d.tok]; ti != nil {
+			ti.state = tDropped
+		}
+		if _, in := s.resident[d.key]; !in && d.exp.IsZero() {
+			s.nowhere[d.key] = d.tok
+		}
+	}
+	return true
+}
+
+// align: alignFifo plus what follows from it.
+func (s *vfSM) align(vs *[]*vfViol) bool {
+	if !s.halted {
+		return true
+	}
+	if !s.alignFifo(vs) {
+		s.fifo = nil // the case ends here as diverged; callers that loop until the FIFO is empty must not spin
+		return false
+	}
+	if s.realigned {
+		// the numbers the cache itself keeps are the starting point for what follows
+		s.acct = s.policyKeys()
+		s.used = s.c.MaxCost() - s.c.RemainingCost()
+		s.realigned = false
+	}
+	return true
+}
+
 func (s *vfSM) stepOne(vs *[]*vfViol) {
+	if !s.align(vs) {
+		return
+	}
 	if len(s.fifo) == 0 {
 		return
 	}
@@ -714,6 +899,9 @@ func (s *vfSM) sweepEvict(e vfCB, now time.Time, vs *[]*vfViol, midSweep bool) {
 
 func (s *vfSM) exec(op *vfOp) (vs []*vfViol) {
 	now := time.Now()
+	if !s.align(&vs) {
+		return
+	}
 	if s.blockedDel != nil {
 		switch op.Kind {
 		case "get", "getttl", "iter", "step", "advance", "wait", "quiesce":
@@ -731,12 +919,14 @@ func (s *vfSM) exec(op *vfOp) (vs []*vfViol) {
 	switch op.Kind {
 	case "set":
 		op.Tok = s.newTok(op.Key)
+		s.bufBefore = len(s.c.setBuf)
 		ok := s.c.SetWithTTL(op.Key, op.Tok, op.Cost, time.Duration(op.TTL))
 		op.Res = fmt.Sprint(ok)
 		_, v := s.absorb()
 		s.add(&vs, v)
 		pv, pok := s.peek(op.Key)
 		s.modelSet(op, ok, pok && pv == op.Tok, now, &vs)
+		s.bufBefore = -1
 		if s.twin != nil {
 			if tok := s.twin.c.SetWithTTL(op.Key, op.Tok, op.Cost, time.Duration(op.TTL)); tok != ok {
 				s.add(&vs, vfV("C15", "cleared-cache-differs-from-a-fresh-one", "Set(%d) returns %v on the cache that was cleared and %v on a new cache that received the same calls since the Clear", op.Key, ok, tok))
@@ -886,7 +1076,7 @@ func (s *vfSM) exec(op *vfOp) (vs []*vfViol) {
 			if _, in := s.resident[k]; in || !s.swept[k] {
 				continue
 			}
-			if c, charged := pk[k]; charged {
+			if c, charged := pk[k]; charged && c != 0 { // a key charged nothing holds no capacity (that ghost is C13's)
 				s.add(&vs, vfV("C14", "capacity-of-expired-entry-not-released", "key %d: its entry was removed by expiry processing and not written since, writes have drained, yet %d units of capacity are still charged to it", k, c))
 			}
 		}
